@@ -564,6 +564,18 @@ class AnyCall:
         return frozenset()
 
 
+class Lookups:
+    """Only a subscript READ may raise (LookupError): for code that uses ``try: d[k] except KeyError``
+    as its membership test, so that the handler is part of the graph."""
+
+    def tokens(self, node, ctx):
+        if isinstance(node, (ast.FunctionDef, ast.ClassDef, ast.AsyncFunctionDef)):
+            return frozenset()
+        if any(isinstance(x, ast.Subscript) and isinstance(x.ctx, ast.Load) for x in walk_no_defs(node)):
+            return frozenset([T_open('LookupError')])
+        return frozenset()
+
+
 class Catalogue:
     """Only catalogued sources raise: ``fn(call) -> tokens or None`` decides per call site."""
 
